@@ -27,7 +27,8 @@ REQUIRED_FEATURES = ["inputs:mixed-int-float-dtypes", "inputs:has-empty", "input
                      "mode:square", "mode:symm", "mergebuf:1", "inputs:all-empty", "via:cli-merge",
                      "via:cli-merge:field-dtype+agg", "inputs:legacy-without-storage-mode-attr:some", "agg:count", "agg:range",
                      "overflow:requested-dtype-of-other-signedness:does-not-fit", "overflow:requested-dtype-of-other-signedness:fits",
-                     "history:one-dtypes-dict-handed-to-two-merges"]
+                     "history:one-dtypes-dict-handed-to-two-merges", "refuse:odd-input-at-position>=3",
+                     "option:dtype-for-first-listed-column-only"]
 
 
 def plan(tier, seed):
@@ -251,6 +252,30 @@ def run_merge_case(ctx, shard, i, rng):
                     okv = got == [want[kk] for kk in wk]
                 c.check(okv, f"merge-values-differ:{agg}", f"merged column {col} != element-wise {agg}",
                         lambda: {"got": got[:30], "want": [want[kk] for kk in wk][:30]})
+    # two value columns, an explicit dtype for the FIRST listed one only: the other keeps the common dtype of the inputs
+    cid = f"m:{shard['sub']}:{i}:dtype-first-column-only"
+    if ctx.want(cid) and two:
+        out = os.path.join(d, "dt_first.cool")
+        with ctx.case(cid, dict(base_desc, columns=["score", "count"], dtypes={"score": "float32"})) as c:
+            c.feature("option:dtype-for-first-listed-column-only")
+            via_cli = bool(i % 2)
+            if via_cli:
+                from click.testing import CliRunner
+                from cooler.cli import cli
+                r = CliRunner().invoke(cli, ["merge", out] + uris + ["--field", "score:dtype=float32", "--field", "count"])
+                if r.exit_code != 0:
+                    raise (r.exception or RuntimeError(r.output[-300:]))
+            else:
+                cooler.merge_coolers(out, uris, mergebuf=int([2, 10**7][int(rng.integers(2))]), columns=["score", "count"],
+                                     dtypes={"score": np.float32})
+            keys, cols = read_pixels_raw(out, "/", ("count", "score"))
+            want = model.fold((kv for S in Ps for kv in sorted(S.items())))
+            wk = sorted(want)
+            if c.check(keys == wk, "merge-pixel-set-differs", "pixel set differs (dtype for the first listed column only)"):
+                c.check([float(x) for x in cols["count"].tolist()] == [float(want[kk]) for kk in wk],
+                        "merge-values-differ:dtype-given-for-another-column",
+                        f"columns=['score','count'], dtypes={{'score': float32}}: count is stored as {cols['count'].dtype} and is "
+                        f"not the exact sum of the inputs", lambda: {"got": cols["count"].tolist()[:12], "want": [want[kk] for kk in wk][:12]})
     # aggregates that are not the identity on a single record (any function pandas' groupby.agg accepts is allowed):
     # number of contributing records, and the range max-min, for every buffer size incl. epochs with one contributor
     for agg in ("count", "range"):
@@ -365,7 +390,12 @@ def run_refusals(ctx, shard):
         make_cooler(bpath, btB, PB, symm=symB)
         with ctx.case(cid, {"kind": kind, "btA": btA, "btB": btB, "symA": symA, "symB": symB}) as c:
             c.feature(f"refuse:{kind}")
-            for order in ((a, bpath), (bpath, a)):
+            a2 = os.path.join(d, "a2.cool")
+            make_cooler(a2, btA, gen.gen_pixels(rng, gen.bt_nbins(btA), symA, "sparse70"), symm=symA)
+            # the odd one out at every position, also third and later among three or four inputs
+            for order in ((a, bpath), (bpath, a), (a, a2, bpath), (a, a2, a, bpath), (a, bpath, a2)):
+                if len(order) > 2:
+                    c.feature("refuse:odd-input-at-position>=3")
                 out = os.path.join(d, "out.cool")
                 if os.path.exists(out):
                     os.remove(out)
